@@ -88,6 +88,8 @@ def _race(cmds, timeout, mem_gb, res):
                     if "--cvc5" in cmd and (out.count('"status": "SUCCESS"') == 0 or '"status": "ERROR"' in out or
                                             '"status": "UNKNOWN"' in out or out.count('"status": "FAILURE"') > out.count("XC_CANARY")):
                         continue    # an SMT answer is taken only when it is a clean proof; otherwise the SAT solvers decide
+                    if ('"status": "ERROR"' in out or '"status": "UNKNOWN"' in out) and out.count('"status": "FAILURE"') <= out.count("XC_CANARY"):
+                        continue    # a solver that gave up (memory limit) on some obligations has not answered: the others go on
                     fe.seek(0)
                     winner = (cmd, _P(rc, out, fe.read()))
                     break
@@ -192,7 +194,7 @@ def prove(workdir, name, c_text, entry, enforce=None, replace=(), loop_contracts
         cb.append("--z3")
     elif solver == "cadical":
         cb += ["--sat-solver", "cadical"]
-    res.backend = {"portfolio3": "portfolio (minisat2, cadical, cvc5 raced)", "portfolio": "SAT portfolio (minisat2 and cadical raced, first answer taken)", "sat": "SAT (minisat2, CBMC built-in)", "cvc5": "SMT2 (cvc5)", "z3": "SMT2 (z3)", "cadical": "SAT (cadical)"}[solver]
+    res.backend = {"portfolio_smt": "portfolio (minisat2 and cvc5 raced)", "portfolio3": "portfolio (minisat2, cadical, cvc5 raced)", "portfolio": "SAT portfolio (minisat2 and cadical raced, first answer taken)", "sat": "SAT (minisat2, CBMC built-in)", "cvc5": "SMT2 (cvc5)", "z3": "SMT2 (z3)", "cadical": "SAT (cadical)"}[solver]
     if unwind is not None:
         cb += ["--unwind", str(unwind)] + (["--unwinding-assertions"] if unwinding_assertions else [])
     for u in unwindset:
@@ -228,9 +230,9 @@ def prove(workdir, name, c_text, entry, enforce=None, replace=(), loop_contracts
 
 def _solve(cmdl, solver, timeout, mem_gb, res):
     if True:
-        if solver in ("portfolio", "portfolio3"):
-            cands = [cmdl, cmdl[:1] + ["--sat-solver", "cadical"] + cmdl[1:]]
-            if solver == "portfolio3":
+        if solver in ("portfolio", "portfolio3", "portfolio_smt"):
+            cands = [cmdl] + ([cmdl[:1] + ["--sat-solver", "cadical"] + cmdl[1:]] if solver != "portfolio_smt" else [])
+            if solver in ("portfolio3", "portfolio_smt"):
                 cands.append(cmdl[:1] + ["--cvc5"] + cmdl[1:])
             return _race(cands, timeout, mem_gb, res)
         return _run(cmdl, timeout, mem_gb, res.cmds)
